@@ -6,8 +6,12 @@ What is traced (every item through the real `ModelParameter.compute_update` disp
   * `compute_std_from_variance`: the real function is run twice on a probe object, once with the comparison answering
     "no entry below" and once "some entry below": it must return the square root in the first case and raise
     LeaspyConvergenceError in the second; the comparison operator and the threshold are read off the probe;
-  * scalar / diagonal noise rules as functions of the already summed statistics; the `sum_dim` calls are recorded
-    (axes kept, and — on a real state with a missing entry — whether each summed operand carries the mask of `y`);
+  * scalar / diagonal noise rules, point-wise reading (`sum_dim` erased while the formula is traced); the `sum_dim` calls are
+    recorded: how many, which axes are kept, and — on a real state with a missing entry — which operand each one sums and
+    whether that operand carries the mask of `y`.  Both rules must be ONE sum of the combined weighted statistic
+    `-2*y_x_model + model_x_model` (scalar: over every axis, diagonal: keeping the feature axis); the former shape of the
+    scalar rule (`sum_dim(y_x_model)`, `sum_dim(model_x_model)` separately: the second operand is a plain tensor, NOT masked)
+    is still translated — it yields `gen_scalar_sum_masks = [true; false]`, which breaks the tie lemma, as it must;
   * the statistics `x**2`, `y*model`, `model**2`;
   * the order of events of `McmcSaemCompatibleModel.update_parameters` on a recording state (Compute i / Assign i);
   * the choice normal / burn-in rule of `compute_update`.
@@ -164,14 +168,17 @@ def generate() -> tuple[str, dict]:
                 raise Untraceable(f"noise rule ({nm}) differs between phases")
         sc_e, sc_sums, sc_kw = res["scalar", False]
         dg_e, dg_sums, dg_kw = res["diag", False]
-        if sc_sums != [{}, {}]:
-            raise Untraceable(f"scalar noise rule: sum_dim calls {sc_sums!r} (expected two full sums)")
+        if sc_sums not in ([{}], [{}, {}]):
+            raise Untraceable(f"scalar noise rule: sum_dim calls {sc_sums!r} (expected one sum over every axis of the combined "
+                              "statistic, or the former two separate full sums)")
         if dg_sums != [{"but_dim": LVL_FT}]:
             raise Untraceable(f"diagonal noise rule: sum_dim calls {dg_sums!r} (expected one sum keeping the feature axis)")
         if set(sc_kw) != {"tol"} or sc_kw != dg_kw:
             raise Untraceable(f"noise rules: compute_std_from_variance arguments {sc_kw!r} / {dg_kw!r}")
-        out.append("(* scalar_noise_std_update: s_ym = sum_dim(y_x_model), s_mm = sum_dim(model_x_model): full sums *)")
+        out.append(f"(* scalar_noise_std_update, point-wise reading: {len(sc_sums)} sum_dim call(s) over every axis "
+                   "(operands and masks: gen_scalar_sum_masks below) *)")
         out.append(definition("gen_noise_scalar_var", ["yL2", "s_ym", "s_mm", "n"], sc_e))
+        facts["scalar_sum_dim_calls"] = len(sc_sums)
         out.append("(* diagonal_noise_std_update, point-wise reading: ONE sum_dim(-2*y_x_model + model_x_model, but_dim=LVL_FT) *)")
         out.append(definition("gen_noise_diag_var", ["yL2", "s_ym", "s_mm", "n"], dg_e))
         out.append(f"Definition gen_noise_tol : Q := {_q(sc_kw['tol'])}.\n")
@@ -243,9 +250,12 @@ def generate() -> tuple[str, dict]:
 
     # ---- masks of the summed operands, on a real state with a missing entry
     facts["masks"] = masks = _mask_probe()
-    out.append("(* does the operand of each sum_dim carry the mask of y?  (real state, one missing entry) *)")
-    out.append(f"Definition gen_scalar_s1_masked : bool := {str(masks['scalar'][0]).lower()}.")
-    out.append(f"Definition gen_scalar_s2_masked : bool := {str(masks['scalar'][1]).lower()}.")
+    if len(masks["scalar"]) != len(sc_sums):
+        raise Untraceable(f"scalar noise rule: {len(sc_sums)} sum_dim call(s) when traced, {len(masks['scalar'])} on a real state")
+    out.append("(* one entry per sum_dim call of the rule, in call order, on a real state with one missing entry:\n"
+               f"   does the summed operand carry the mask of y?   scalar rule operands: {masks['scalar_operands']!r}  "
+               "(combined = -2*y_x_model + model_x_model) *)")
+    out.append(f"Definition gen_scalar_sum_masks : list bool := [{'; '.join(str(b).lower() for b in masks['scalar'])}].")
     out.append(f"Definition gen_diag_masked : bool := {str(masks['diag'][0]).lower()}.\n")
 
     # ---- compute_update: which rule in which phase
@@ -330,9 +340,10 @@ def _mask_probe() -> dict:
             st.dag["noise_std"].compute_update(state=st, suff_stats=suff, burn_in=False)
         finally:
             gauss.sum_dim = real
-        if len(seen) != (2 if nm == "scalar" else 1):
-            raise Untraceable(f"{nm} noise rule: {len(seen)} sum_dim calls on a real state")
-        if which != (["ym", "mm"] if nm == "scalar" else ["other"]):
-            raise Untraceable(f"{nm} noise rule: sum_dim operands are {which!r}")
+        # "combined": neither statistic itself, i.e. an expression built from them (checked point-wise by the traced formula)
+        which = ["combined" if w == "other" else w for w in which]
+        if which not in ([["combined"], ["ym", "mm"]] if nm == "scalar" else [["combined"]]):
+            raise Untraceable(f"{nm} noise rule: sum_dim operands on a real state are {which!r}")
         res[nm] = seen
+        res[nm + "_operands"] = which
     return res
